@@ -91,10 +91,27 @@ inline bool build(JsonVariant dst, const Val& v, cs::Src& s, Arena& arena, Build
       if (v.is_f32() && s.coin()) return dst.set((float)v.d);
       return dst.set(v.d);
     case Val::Str: return set_string(dst, v.s, s, arena, st);
-    case Val::Raw:
+    case Val::Raw: {
       if (st) st->raws++;
+      // bin / ext values in minimal encoding may be given through the MessagePack API types
+      const std::string& r = v.s;
+      if (!r.empty() && s.coin()) {
+        unsigned char c = (unsigned char)r[0];
+        size_t n = r.size();
+        if (c == 0xC4 && n >= 2 && (size_t)(unsigned char)r[1] + 2 == n)
+          return dst.set(MsgPackBinary(r.data() + 2, n - 2));
+        if (c == 0xC5 && n >= 3 && n - 3 >= 256) return dst.set(MsgPackBinary(r.data() + 3, n - 3));
+        if (c >= 0xD4 && c <= 0xD8 && n == 2 + ((size_t)1 << (c - 0xD4)))
+          return dst.set(MsgPackExtension((int8_t)r[1], r.data() + 2, n - 2));
+        if (c == 0xC7 && n >= 3 && (size_t)(unsigned char)r[1] + 3 == n) {
+          size_t sz = n - 3;
+          if (!(sz == 1 || sz == 2 || sz == 4 || sz == 8 || sz == 16))
+            return dst.set(MsgPackExtension((int8_t)r[2], r.data() + 3, sz));
+        }
+      }
       if (s.coin()) return dst.set(serialized(v.s));
       return dst.set(serialized(v.s.data(), v.s.size()));
+    }
     case Val::Arr: {
       JsonArray a = dst.to<JsonArray>();
       bool ok = !a.isNull();
